@@ -1051,6 +1051,44 @@ def run_reweight(case, ctx):
     ctx.nontrivial(ws is not None and n >= 3)
 
 
+# --------------------------------------------------------------------------- samples far from the origin
+@st.composite
+def offset_cases(draw):
+    """samples that share a large offset compared with their spread (|mean| / std up to 1e8): the textbook two-pass
+    definitions stay accurate there (the deviations x - mean are small numbers), one-pass shortcuts do not"""
+    n = draw(st.integers(2, 8))
+    off = draw(st.sampled_from([1e8, -2.5e7, 3e6, -1e8, 1e7]))
+    dev = draw(st.lists(st.sampled_from([-1.0, -0.5, 0.0, 0.25, 0.5, 0.75, 1.0, -0.125]), min_size=n, max_size=n))
+    if len(set(dev)) < 2:
+        dev[0] = 1.0; dev[1] = -1.0
+    ws = None
+    if draw(st.booleans()):
+        ws = draw(st.lists(st.sampled_from([0.0, 0.5, 1.0, 2.0, 0.25]), min_size=n, max_size=n))
+        pos = [i for i, w in enumerate(ws) if w > 0 and True]
+        if len(set(dev[i] for i in pos)) < 2:          # at least two distinct supported points
+            ws = None
+    return dict(off=off, dev=dev, ws=ws)
+
+
+def run_offset(case, ctx):
+    from mystic.math import measures as M
+    xs = [case['off'] + d for d in case['dev']]          # exact: the deviations are short dyadics
+    ws = case['ws']
+    m = wmean(xs, ws)
+    var = wmoment(xs, ws, 2)
+    det = lambda **kw: dict(dict(xs=xs, ws=ws), **kw)
+    ctx.label('offset:%g' % case['off'], 'weighted' if ws is not None else 'unweighted')
+    got = M.mean(xs, ws)
+    ctx.expect(near(got, m, abs(m), rel=1e-12), 'C18.mean', lambda: det(got=float(got), want=m))
+    got = M.variance(xs, ws)
+    ctx.expect(near(got, var, var, rel=1e-6), 'C18.variance', lambda: det(got=float(got), want=var))
+    got = M.std(xs, ws)
+    ctx.expect(near(got, math.sqrt(var), math.sqrt(var), rel=1e-6), 'C18.std', lambda: det(got=float(got), want=math.sqrt(var)))
+    got = M.moment(xs, ws, order=2)
+    ctx.expect(near(got, var, var, rel=1e-6), 'C18.moment', lambda: det(order=2, got=float(got), want=var))
+    ctx.nontrivial(True)
+
+
 # libFuzzer executions per shard and @given test of the coverage-guided extra of the thorough tier (vp/fuzz.py)
 FUZZ = 2000
 
@@ -1061,6 +1099,7 @@ TESTS = [
     Test('weights', run_weights, strategy=lambda tier: weights_cases(), examples={'quick': 5000, 'thorough': 150000}),
     Test('dist', run_dist, strategy=lambda tier: dist_cases(), examples={'quick': 3000, 'thorough': 100000}),
     Test('reweight', run_reweight, strategy=lambda tier: reweight_cases(), examples={'quick': 160, 'thorough': 4000}),
+    Test('offset', run_offset, strategy=lambda tier: offset_cases(), examples={'quick': 2000, 'thorough': 50000}),
 ]
 
 # --------------------------------------------------------------------------- known findings
